@@ -7,4 +7,4 @@ mkdir -p .build/bin
 go1.26 build -o .build/bin/instr-C12 ./engine/instr
 VERIF_ROOT="$PWD" .build/bin/instr-C12 -id C12 -out "$PWD/.build/instr-C12" \
   -chan parallelisation/parallelisation.go \
-  -swapsync parallelisation/cancel_functions.go
+  -swapsync parallelisation/cancel_functions.go -swapsync parallelisation/parallelisation.go
